@@ -3,7 +3,7 @@ From Coq Require Import List ZArith Bool Sorted Permutation Lia Arith.
 From S4.Model Require Import Merge.
 From S4.Proofs Require Import MergeProofs.
 Import ListNotations.
-Open Scope Z_scope.
+Local Open Scope Z_scope.
 
 Definition view (l : list msg) : list (Z * Z * Z) :=
   map (fun m => (Z.of_nat (m_src m), Z.of_nat (m_pos m), m_inst m)) l.
